@@ -135,16 +135,56 @@ def offset_case(rng, *, hermitian=True, fmt=None, max_params=2, N=3):
     return dict(sub=sub, nparam=nparam, N=N, H=H, hermitian=hermitian, fully=fully, fmt=fmt)
 
 
+def mask_case(rng, *, hermitian=True, max_params=2, N=3):
+    """Selective mask on a NON-leading block of three distinct levels, eliminating a single pair (the kept
+    pattern is then not transitive: commuting_blocks must be False for exactly that block); exact (sympy)."""
+    nb = rng.randint(2, 3)
+    bstar = rng.randint(1, nb - 1)
+    sizes = [rng.randint(1, 2) for _ in range(nb)]
+    sizes[bstar] = 3
+    sub = [b for b, sz in enumerate(sizes) for _ in range(sz)]
+    E = []
+    for b, sz in enumerate(sizes):
+        base = 20 * b
+        lv = [base + 3 * t for t in range(sz)] if b == bstar else [base + rng.choice([0, 0, 5]) for _ in range(sz)]
+        E += [G(Fr(v)) for v in lv]
+    m = [[0] * 3 for _ in range(3)]
+    x, y = rng.choice([(0, 1), (0, 2), (1, 2)])
+    m[x][y] = 1
+    if hermitian or rng.random() < 0.5:
+        m[y][x] = 1
+    fully = {str(bstar): m}
+    if rng.random() < 0.3 and bstar != nb - 1:
+        fully[str(nb - 1)] = [[0] * sizes[nb - 1] for _ in range(sizes[nb - 1])]
+    nparam = rng.randint(1, max_params)
+    H = {key((0,) * nparam): gq.enc(diag_matrix(E))}
+    n = len(sub)
+    for o in [o for o in gq.orders_upto(nparam, 2) if sum(o) >= 1]:
+        if sum(o) == 1 or rng.random() < 0.25:
+            H[key(o)] = gq.enc(rand_matrix(rng, n, herm=hermitian, cplx=rng.random() < 0.6, dyadic=False, density=1.0))
+    return dict(sub=sub, nparam=nparam, N=N, H=H, hermitian=hermitian, fully=fully, fmt="sympy")
+
+
 def random_case(rng, *, hermitian=True, fmt=None, max_blocks=3, max_size=3, max_params=2, N=3,
                 allow_fully=True, allow_mask=True, cplx=None, offset_prob=0.12, min_params=1):
     if rng.random() < offset_prob:
         return offset_case(rng, hermitian=hermitian, fmt=fmt, max_params=max_params, N=N)
+    if fmt in (None, "sympy") and allow_mask and max_blocks >= 2 and max_size >= 3 and rng.random() < offset_prob:
+        return mask_case(rng, hermitian=hermitian, max_params=max_params, N=N)
     fmt = fmt or rng.choice(["sympy", "sympy", "dense", "sparse"])
     exactfloat = fmt != "sympy"
     nb = rng.randint(1, min(max_blocks, 3) if exactfloat else max_blocks)
     sub = rand_sub(rng, nb, max_size)
     if len(sub) == 1 and nb == 1:
         sub = [0, 0]
+    if nb >= 2 and max_size >= 3 and rng.random() < 0.4:
+        # a non-leading block with three levels (needed for non-transitive kept patterns inside a masked block)
+        bstar = rng.randint(1, nb - 1)
+        sizes = [sum(1 for x in sub if x == b) for b in range(nb)]
+        sizes[bstar] = 3
+        sub = [b for b, sz in enumerate(sizes) for _ in range(sz)]
+        if rng.random() < 0.5:
+            rng.shuffle(sub)
     nparam = rng.randint(min(min_params, max_params), max_params)
     cplx = rng.random() < 0.6 if cplx is None else cplx
     fully = None
@@ -175,9 +215,26 @@ def random_case(rng, *, hermitian=True, fmt=None, max_blocks=3, max_size=3, max_
                         E[i] = G(Fr(v + 100 * (b + 1)), E[i].im)
     elif allow_mask and mode < 0.6:
         fully = {}
-        for b in rng.sample(blocks, rng.randint(1, nb)):
-            Eb = [E[i] for i in range(len(sub)) if sub[i] == b]
-            fully[str(b)] = rand_mask(rng, Eb, symmetric=herm_mats)
+        pool = blocks[1:] if (nb >= 2 and rng.random() < 0.5) else blocks   # often NOT the leading blocks
+        for b in rng.sample(pool, rng.randint(1, len(pool))):
+            idx = [i for i in range(len(sub)) if sub[i] == b]
+            if not exactfloat and len(idx) >= 2 and rng.random() < 0.7:
+                # distinct levels inside the masked block, far from the other blocks' pools
+                lo = min(int(E[i].re) for i in idx)
+                for t, i in enumerate(idx):
+                    E[i] = G(Fr(lo + 13 * t + 100 * (b + 1)), E[i].im)
+            Eb = [E[i] for i in idx]
+            m = rand_mask(rng, Eb, symmetric=herm_mats)
+            if len(idx) >= 3 and rng.random() < 0.5:
+                # eliminate exactly one pair: the kept pattern is then not transitive
+                m = [[0] * len(idx) for _ in idx]
+                cand = [(x, y) for x in range(len(idx)) for y in range(x + 1, len(idx)) if Eb[x] != Eb[y]]
+                if cand:
+                    x, y = rng.choice(cand)
+                    m[x][y] = 1
+                    if herm_mats or rng.random() < 0.5:
+                        m[y][x] = 1
+            fully[str(b)] = m
     H = {key((0,) * nparam): gq.enc(diag_matrix(E))}
     n = len(sub)
     orders = [o for o in gq.orders_upto(nparam, 2) if sum(o) >= 1]
